@@ -140,6 +140,11 @@ func c02pWalk(g *FG, info *types.Info, start Loc, def *ast.AssignStmt, r, s type
 		e = unparen(e)
 		if tag == nil {
 			switch t := e.(type) {
+			case *ast.Ident:
+				// a boolean local with a single definition stands for its defining expression
+				if def := c02BoolDef(g, info, t); def != nil {
+					return refine(def, nil, pol, st)
+				}
 			case *ast.UnaryExpr:
 				if t.Op == token.NOT {
 					return refine(t.X, nil, !pol, st)
@@ -437,4 +442,53 @@ func containsCall(n ast.Node) bool {
 		return !found
 	})
 	return found
+}
+
+// c02BoolDef: id names a boolean local of g's function that is assigned exactly once (its definition) from one
+// expression; that expression, else nil. (The variables the expression reads are the results of the ReadRune the
+// caller is following; they are not assigned again before the next read.)
+func c02BoolDef(g *FG, info *types.Info, id *ast.Ident) ast.Expr {
+	obj := info.ObjectOf(id)
+	if obj == nil {
+		return nil
+	}
+	if b, ok := obj.Type().Underlying().(*types.Basic); !ok || b.Info()&types.IsBoolean == 0 {
+		return nil
+	}
+	var def ast.Expr
+	n := 0
+	ast.Inspect(g.Body, func(x ast.Node) bool {
+		switch t := x.(type) {
+		case *ast.AssignStmt:
+			for i, l := range t.Lhs {
+				if lid, ok := unparen(l).(*ast.Ident); ok && info.ObjectOf(lid) == obj {
+					n++
+					if len(t.Lhs) == len(t.Rhs) {
+						def = t.Rhs[i]
+					} else {
+						def = nil
+						n++
+					}
+				}
+			}
+		case *ast.ValueSpec:
+			for i, nm := range t.Names {
+				if info.ObjectOf(nm) == obj && len(t.Values) == len(t.Names) {
+					n++
+					def = t.Values[i]
+				}
+			}
+		case *ast.UnaryExpr:
+			if t.Op == token.AND {
+				if lid, ok := unparen(t.X).(*ast.Ident); ok && info.ObjectOf(lid) == obj {
+					n += 2
+				}
+			}
+		}
+		return true
+	})
+	if n != 1 {
+		return nil
+	}
+	return def
 }
